@@ -91,7 +91,10 @@ def generate_subgraphs(graph: IterationNode) -> list[IterationNode]:
             all_subgraphs.update(new_graphs)
             old_subgraphs = new_graphs
 
-    return list(all_subgraphs.values())
+    # A subgraph must be emitted after every subgraph it can be derived from. Exhausting one
+    # tensor can zero several others at once, so discovery order alone does not guarantee that;
+    # order by the number of remaining sparse layers instead (the sort is stable).
+    return sorted(all_subgraphs.values(), key=lambda g: -len(g.compressed_dimensions()))
 
 
 @to_ir_iteration_graph.register(IterationNode)
